@@ -15,4 +15,11 @@ DRV=$(for f in $ORDER; do case $f in vdpll_main.ml) ;; *) printf '%s ' $f ;; esa
 ocamlfind ocamlopt -w -a -o ../driver $DRV
 # vdpll (stand-alone DIMACS solver): the same extracted modules + dcommon + its own entry point
 VD=$(for f in $ORDER; do case $f in main.ml|d_*.ml) ;; *) printf '%s ' $f ;; esac; done)
-ocamlfind ocamlopt -w -a -o ../vdpll $VD
+ocamlfind ocamlopt -w -a -o ../vdpll.bin $VD
+# the extracted parser recurses on the input: run it with a large stack
+cat > ../vdpll <<'WRAP'
+#!/bin/sh
+ulimit -s unlimited 2>/dev/null || ulimit -s 4000000 2>/dev/null || true
+exec "$(dirname "$0")/vdpll.bin" "$@"
+WRAP
+chmod +x ../vdpll
